@@ -10,6 +10,7 @@
 -/
 import ChessVerif.Proofs.UciCountI
 import ChessVerif.Proofs.UciProgress
+import ChessVerif.Proofs.UciTerminationQ
 
 namespace ChessVerif.Uci
 
@@ -181,5 +182,267 @@ example : ∃ s, Reachable [.go false false] s ∧ s.handler = .search ∧ s.int
   | some s =>
     simp only [hs, Option.map_some, Option.some.injEq, Prod.mk.injEq, decide_eq_false_iff_not] at h
     exact ⟨s, reachable_run _ .init hs, h.1, h.2.1, h.2.2.1, h.2.2.2⟩
+
+end ChessVerif.Uci
+
+/-! ## Liveness
+
+The theorems above say that nothing bad happens and that a non-terminated driver can always move.
+The theorems below say that it actually ARRIVES: executions are finite, and where they end every
+request has been answered.
+
+* Measure: `mu : State → Nat` (Proofs/UciTermination.lean) — pending lines weighted by the cost of
+  their handling, control distance of every goroutine to its exit, 2 per buffered output message,
+  1 for an open stdin, 1 for an unpolled `PonderHit`.
+* NO fairness assumption is needed: in every reachable state EVERY transition of the model except
+  `sInfo` strictly decreases `mu` — the 26 internal ones, the GUI's `envLine` / `envEof`, the
+  `timer`, and the search's `sDone`, `sAbortSelf`, `sPollHit`.  `sInfo` (the search prints an
+  `info` line) raises it by 2.
+* Environment assumptions, all explicit:
+    E1  the search prints finitely many `info` lines (`nInfo lab k ≤ N` / `searchSteps ts ≤ N`);
+    E2  a scheduler idles (`lab i = none`) only when no goroutine of the driver can step
+        (`Quiescent`): runnable goroutines run.  This contains the two assumptions built into
+        the model's transitions `hStop` (the search polls a closed `stop`) and `wSink` (the sink
+        accepts a write);
+    E3  (for `liveness` only) it idles only when moreover the GUI has nothing left that it may
+        write and no search is running (`AtRest`): the GUI writes its script, and a search that
+        is not stopped reaches a limit of its own or has its timer fire.  Without E3 the end
+        state may legitimately contain a running search (`go infinite`, no `stop`):
+        `unanswered_go_characterised`.
+-/
+
+namespace ChessVerif.Uci
+
+variable {sc : List Cmd} {s s' : State}
+
+/-- **Termination measure.**  In every reachable state every internal transition strictly
+    decreases `mu`; so do the environment's transitions and the search's `sDone`, `sAbortSelf`,
+    `sPollHit`; the search's `sInfo` raises it by exactly 2. -/
+theorem termination_measure (h : Reachable sc s) {t : Tr} (hf : fire t s = some s') :
+    (t.kind = .internal → mu s' < mu s) ∧ (t.kind = .env → mu s' < mu s) ∧
+    (t ≠ .sInfo → mu s' < mu s) ∧ (t = .sInfo → mu s' = mu s + 2) :=
+  ⟨fun hk => mu_internal_lt (Inv.reachable h) hk hf, fun hk => mu_env_lt (Inv.reachable h) hk hf,
+   fun ht => mu_step_lt (Inv.reachable h) ht hf, fun ht => by subst ht; exact mu_sInfo (Inv.reachable h) hf⟩
+
+/-- **No infinite internal run.**  From every reachable state, every transition sequence (any
+    scheduler; internal steps, and also GUI / timer steps) that contains at most `N` steps of the
+    search has length at most `mu s + 3·N`. -/
+theorem no_infinite_internal_run (h : Reachable sc s) {ts : List Tr} (hr : run ts s = some s')
+    {N : Nat} (hN : searchSteps ts ≤ N) : ts.length ≤ mu s + 3 * N := by
+  have h1 := run_length_bound (Inv.reachable h) hr
+  have h2 := infoSteps_le_searchSteps ts
+  omega
+
+/-- Whole executions: every execution of the system on script `sc` has length at most
+    (cost of the script) + 7 + 3 · (number of `info` lines printed). -/
+theorem execution_length_bound {ts : List Tr} (hr : run ts (init sc) = some s') :
+    ts.length ≤ lineW 3 sc + 7 + 3 * infoSteps ts := by
+  have h1 := run_length_bound (Inv.init sc) hr
+  rw [mu_init] at h1
+  omega
+
+/-- The internal step relation is well-founded on reachable states. -/
+theorem internal_steps_wellFounded :
+    WellFounded (fun s' s : State => Reachable sc s ∧ ∃ t : Tr, t.kind = .internal ∧ fire t s = some s') :=
+  Subrelation.wf (fun ⟨h, ht⟩ => ⟨Inv.reachable h, ht⟩) internal_wellFounded
+
+/-- From every reachable state the driver's own goroutines alone reach a quiescent state. -/
+theorem quiescence_reachable (h : Reachable sc s) :
+    ∃ ts s', (∀ t ∈ ts, t.kind = .internal) ∧ run ts s = some s' ∧ Reachable sc s' ∧ Quiescent s' := by
+  obtain ⟨ts, s', h1, h2, h3⟩ := exists_internal_run_to_quiescent (Inv.reachable h)
+  exact ⟨ts, s', h1, h2, reachable_run ts h h2, h3⟩
+
+/-- **Answer liveness.**  In every reachable quiescent state in which every started search has
+    been asked to stop (or has ended — then the handler is not in `search` at all):
+    `bestmove` lines delivered = `go` lines received, `readyok` delivered = `isready` received,
+    everything sent has been delivered, and the whole output is a complete word of
+    `((readyok|other|empty)* go (info|readyok)* bestmove)*` (each search's infos before its one
+    bestmove); the state is awaiting input or terminated. -/
+theorem every_go_answered_at_quiescence (h : Reachable sc s) (hq : Quiescent s)
+    (hstop : s.handler = .search → s.stopClosed = true) :
+    s.written.countP Msg.isBest = (rcvd s).countP Cmd.isGo ∧
+    s.written.countP Msg.isReadyok = (rcvd s).countP Cmd.isReady ∧
+    s.written = msgsOf s.log ∧ runPhase false s.log = some false ∧
+    (AwaitingInput s ∨ Terminated s) := by
+  have hns : s.handler ≠ .search := by
+    intro hs
+    have := (quiescent_search_running h hq hs).1
+    simp [hstop hs] at this
+  have hb := quiescent_bestmove h hq
+  simp only [hns, if_false, Nat.add_zero] at hb
+  exact ⟨hb, quiescent_readyok h hq, quiescent_delivered h hq, (quiescent_language h hq hns).1,
+    quiescent_awaiting_or_terminated (Inv.reachable h) hq⟩
+
+/-- Every `isready` is answered at quiescence, with or without a running search. -/
+theorem every_isready_answered_at_quiescence (h : Reachable sc s) (hq : Quiescent s) :
+    s.written.countP Msg.isReadyok = (rcvd s).countP Cmd.isReady :=
+  quiescent_readyok h hq
+
+/-- The exception, exactly: a quiescent state has an unanswered `go` iff the handler is inside the
+    search; then it is exactly one, `stop` has not been requested, the interrupt goroutine is in
+    its `select` and the reader waits for the GUI. -/
+theorem unanswered_go_characterised (h : Reachable sc s) (hq : Quiescent s) :
+    (s.written.countP Msg.isBest ≠ (rcvd s).countP Cmd.isGo ↔ s.handler = .search) ∧
+    (s.handler = .search →
+      s.written.countP Msg.isBest + 1 = (rcvd s).countP Cmd.isGo ∧
+      s.stopClosed = false ∧ s.intr = .select ∧ AwaitingInput s) := by
+  have hb := quiescent_bestmove h hq
+  refine ⟨?_, fun hs => ?_⟩
+  · by_cases hs : s.handler = .search <;> simp [hs] at hb ⊢ <;> omega
+  · simp only [hs, if_true] at hb
+    exact ⟨hb, quiescent_search_running h hq hs⟩
+
+/-- **Quiescence is reached under any scheduler.**  Take any infinite behaviour from a reachable
+    state in which the scheduler idles only when no goroutine of the driver can step (E2) and the
+    search takes at most `N` steps (E1).  Then at most `mu (ρ 0) + 3·N` transitions ever fire, and
+    within that many steps a state is reached that is quiescent — terminated or awaiting input —
+    with every `isready` answered and every `go` answered except a search still running
+    un-stopped. -/
+theorem reaches_quiescence_under_any_scheduler {ρ : Nat → State} {lab : Nat → Option Tr} {N : Nat}
+    (h0 : Reachable sc (ρ 0)) (hb : Behaviour Quiescent ρ lab) (hN : ∀ k, nSearch lab k ≤ N) :
+    (∀ k, nSteps lab k ≤ mu (ρ 0) + 3 * N) ∧
+    ∃ i, i ≤ mu (ρ 0) + 3 * N ∧ Reachable sc (ρ i) ∧ Quiescent (ρ i) ∧
+      (Terminated (ρ i) ∨ AwaitingInput (ρ i)) ∧
+      (ρ i).written.countP Msg.isReadyok = (rcvd (ρ i)).countP Cmd.isReady ∧
+      (ρ i).written.countP Msg.isBest + (if (ρ i).handler = .search then 1 else 0)
+        = (rcvd (ρ i)).countP Cmd.isGo := by
+  have hN' : ∀ k, nInfo lab k ≤ N := fun k => Nat.le_trans (nInfo_le_nSearch lab k) (hN k)
+  refine ⟨hb.steps_le (Inv.reachable h0) hN', ?_⟩
+  obtain ⟨i, hi, _, hq⟩ := hb.reaches (Inv.reachable h0) hN'
+  have hr := hb.reachable h0 i
+  exact ⟨i, hi, hr, hq, (quiescent_awaiting_or_terminated (Inv.reachable hr) hq).symm,
+    quiescent_readyok hr hq, quiescent_bestmove hr hq⟩
+
+/-- **`quit` / end of input: termination is REACHED.**  From any reachable state in which `quit`
+    has been received or stdin has been closed, under any scheduler (E2) and provided the search
+    prints at most `N` further info lines (E1), within `mu (ρ 0) + 3·N` steps the driver is
+    terminated — reader, handler, writer ended, no interrupt goroutine, `Run` returned — with
+    exactly one delivered `bestmove` per received `go` and one `readyok` per received `isready`. -/
+theorem quit_or_eof_reaches_terminated {ρ : Nat → State} {lab : Nat → Option Tr} {N : Nat}
+    (h0 : Reachable sc (ρ 0)) (hb : Behaviour Quiescent ρ lab) (hN : ∀ k, nInfo lab k ≤ N)
+    (he : (∃ r, (r, Cmd.quit) ∈ (ρ 0).consumed) ∨ (ρ 0).pipeEof = true) :
+    ∃ i, i ≤ mu (ρ 0) + 3 * N ∧ Reachable sc (ρ i) ∧ Terminated (ρ i) ∧
+      (ρ i).written.countP Msg.isBest = (rcvd (ρ i)).countP Cmd.isGo ∧
+      (ρ i).written.countP Msg.isReadyok = (rcvd (ρ i)).countP Cmd.isReady := by
+  obtain ⟨i, hi, _, hq⟩ := hb.reaches (Inv.reachable h0) hN
+  have hr := hb.reachable h0 i
+  have ht := quiescent_terminated_of_quit_or_eof hr hq (hb.persist i he)
+  exact ⟨i, hi, hr, ht, one_bestmove_per_go_final hr ht, one_readyok_per_isready_final hr ht⟩
+
+/-- **Liveness.**  For every script `sc`, every scheduler and every timing: take any infinite
+    behaviour from `init sc` in which the search prints at most `N` info lines (E1) and the
+    scheduler idles only in states where no goroutine of the driver can step, the GUI has nothing
+    left that it may write, and no search is running (E2, E3).  Then within
+    `lineW 3 sc + 7 + 3·N` steps the system is in a state where
+      * each received `go` has exactly one delivered `bestmove`, each received `isready` exactly one
+        delivered `readyok`;
+      * all output has been delivered and is a complete word of
+        `((readyok|other|empty)* go (info|readyok)* bestmove)*`: the infos of a search precede its
+        bestmove;
+      * either the driver has terminated with all its goroutines, or every line of the script has
+        been received (`rcvd = sc`, so the counts are those of the script) and the driver awaits input;
+      * if the script contains `quit`, or stdin has been closed, it has terminated. -/
+theorem liveness {ρ : Nat → State} {lab : Nat → Option Tr} {N : Nat}
+    (h0 : ρ 0 = init sc) (hb : Behaviour AtRest ρ lab) (hN : ∀ k, nInfo lab k ≤ N) :
+    ∃ i, i ≤ lineW 3 sc + 7 + 3 * N ∧ Reachable sc (ρ i) ∧
+      (ρ i).written.countP Msg.isBest = (rcvd (ρ i)).countP Cmd.isGo ∧
+      (ρ i).written.countP Msg.isReadyok = (rcvd (ρ i)).countP Cmd.isReady ∧
+      (ρ i).written = msgsOf (ρ i).log ∧ runPhase false (ρ i).log = some false ∧
+      (Terminated (ρ i) ∨ (AwaitingInput (ρ i) ∧ (ρ i).script = [] ∧ rcvd (ρ i) = sc)) ∧
+      (Cmd.quit ∈ sc ∨ (ρ i).pipeEof = true → Terminated (ρ i)) := by
+  have hinv : Inv (ρ 0) := h0 ▸ Inv.init sc
+  have hr0 : Reachable sc (ρ 0) := h0 ▸ Reachable.init
+  obtain ⟨i, hi, _, hs, hns⟩ := hb.reaches hinv hN
+  rw [h0, mu_init] at hi
+  have hr := hb.reachable hr0 i
+  have ha := every_go_answered_at_quiescence hr hs.1 (fun h => absurd h hns)
+  refine ⟨i, hi, hr, ha.1, ha.2.1, ha.2.2.1, ha.2.2.2.1, settled_cases hr hs hns, ?_⟩
+  rintro (hq | he)
+  · exact settled_quit_terminated hr hs hns hq
+  · exact quiescent_terminated_of_quit_or_eof hr hs.1 (.inr he)
+
+/-- The state reached in `liveness` is final: the only transition of the whole system still enabled
+    is the GUI closing stdin (after which `quit_or_eof_reaches_terminated` applies). -/
+theorem at_rest_only_eof (h : Reachable sc s) (hr : AtRest s) {t : Tr} (hf : fire t s = some s') :
+    t = .envEof :=
+  atRest_only_eof (Inv.reachable h) hr hf
+
+/-! ### Non-vacuity of the liveness theorems -/
+
+/-- `go`, `stop` (no `quit`, stdin stays open): the hypotheses of `liveness` hold for the behaviour
+    "run `exRunA`, then idle" with `N = 1`. -/
+def exScriptA : List Cmd := [.go false false, .stop]
+
+def exRunA : List Tr :=
+  [.envLine, .envLine, .rScan, .hRecv, .sInfo, .rScan, .iRecv, .iExit, .hStop, .hAbortInfo, .hCloseFin,
+   .hWait, .hBest, .hDefer, .wRecv, .wSink, .wRecv, .wSink, .wRecv, .wSink]
+
+example : ∃ ρ lab, ρ 0 = init exScriptA ∧ Behaviour AtRest ρ lab ∧ ∀ k, nInfo lab k ≤ 1 :=
+  atRest_example (ts := exRunA) (by decide)
+
+/-- … and its end state: awaiting input, whole script received, `info info bestmove` delivered
+    (hypotheses of `every_go_answered_at_quiescence`). -/
+example : ∃ s, Reachable exScriptA s ∧
+    (quiescentB s = true ∧ s.handler = .recv ∧ s.reader = .scan ∧ s.pipe = [] ∧ s.pipeEof = false ∧
+      s.written = [.info, .info, .bestmove] ∧ rcvd s = exScriptA) :=
+  run_example (ts := exRunA) (by decide)
+
+/-- `go ponder`, `isready`, `ponderhit`, EOF (`exRun2` above): behaviour for `liveness`, `N = 1`;
+    ends terminated. -/
+example : ∃ ρ lab, ρ 0 = init exScript2 ∧ Behaviour AtRest ρ lab ∧ ∀ k, nInfo lab k ≤ 1 :=
+  atRest_example (ts := exRun2) (by decide)
+
+/-- `isready` during a search: answered by the interrupt goroutine before the `bestmove`. -/
+def exScriptC : List Cmd := [.go false true, .isready, .stop]
+
+def exRunC : List Tr :=
+  [.envLine, .envLine, .envLine, .rScan, .hRecv, .rScan, .iRecv, .iReady, .rScan, .iRecv, .iExit, .hStop,
+   .hAbortInfo, .hCloseFin, .hWait, .hBest, .hDefer, .wRecv, .wSink, .wRecv, .wSink, .wRecv, .wSink]
+
+example : ∃ ρ lab, ρ 0 = init exScriptC ∧ Behaviour AtRest ρ lab ∧ ∀ k, nInfo lab k ≤ 0 :=
+  atRest_example (ts := exRunC) (by decide)
+
+example : ∃ s, Reachable exScriptC s ∧
+    (quiescentB s = true ∧ s.handler = .recv ∧ s.written = [.readyok, .info, .bestmove] ∧
+      s.consumed = [(.handler, .go false true), (.intr, .isready), (.intr, .stop)]) :=
+  run_example (ts := exRunC) (by decide)
+
+/-- `quit` during a search: received by the interrupt goroutine, which closes `stop`; the search
+    aborts, `bestmove`, the reader closes `inputLines`, everything terminates. -/
+def exScriptD : List Cmd := [.go false false, .quit]
+
+def exRunD : List Tr :=
+  [.envLine, .envLine, .rScan, .hRecv, .rScan, .iRecv, .iExit, .hStop, .hAbortInfo, .hCloseFin, .hWait,
+   .hBest, .hDefer, .rClose, .hClosed, .hCloseOut, .wRecv, .wSink, .wRecv, .wSink, .wDone, .mReturn]
+
+example : ∃ ρ lab, ρ 0 = init exScriptD ∧ Behaviour AtRest ρ lab ∧ ∀ k, nInfo lab k ≤ 0 :=
+  atRest_example (ts := exRunD) (by decide)
+
+example : ∃ s, Reachable exScriptD s ∧
+    (Terminated s ∧ s.written = [.info, .bestmove] ∧
+      s.consumed = [(.handler, .go false false), (.intr, .quit)]) :=
+  run_example (ts := exRunD) (by decide)
+
+/-- Hypotheses of `quit_or_eof_reaches_terminated`: the state right after the interrupt goroutine
+    received `quit` (search running, nothing terminated yet), and a behaviour from `init` that
+    idles only in quiescent states. -/
+example : ∃ s, Reachable exScriptD s ∧
+    ((Rcv.intr, Cmd.quit) ∈ s.consumed ∧ s.handler = .search ∧ ¬ Terminated s) :=
+  run_example (ts := exRunD.take 6) (by decide)
+
+example : ∃ ρ lab, ρ 0 = init exScriptD ∧ Behaviour Quiescent ρ lab ∧ ∀ k, nInfo lab k ≤ 0 :=
+  quiescent_example (ts := exRunD) (by decide)
+
+/-- The exception of `unanswered_go_characterised` is real: `go` (infinite) and nothing else —
+    quiescent, the search running, `stop` open, zero `bestmove` for one `go`. -/
+example : ∃ s, Reachable [.go false false] s ∧
+    (quiescentB s = true ∧ s.handler = .search ∧ s.stopClosed = false ∧ s.intr = .select ∧
+      s.written = [] ∧ rcvd s = [.go false false]) :=
+  run_example (ts := [.envLine, .rScan, .hRecv]) (by decide)
+
+/-- The measure on a concrete run: `mu (init exScript) = 35`, the 34-step run `exRun` (one `sInfo`)
+    ends terminated with measure 1 (stdin still open); `34 + 1 ≤ 35 + 3·1` (`run_length_bound`). -/
+example : mu (init exScript) = 35 ∧ (run exRun (init exScript)).map mu = some 1 ∧
+    exRun.length = 34 ∧ infoSteps exRun = 1 := by decide
 
 end ChessVerif.Uci
